@@ -128,6 +128,21 @@ theorem generated_when_absent (g : Unit → Int) : pickTimestamp none (some g) =
 
 theorem no_timestamp_without_generator : pickTimestamp none none = none := rfl
 
+/-- **Every frame** of an execution whose statement has an explicit timestamp carries exactly it - the first send and
+the frame re-sent after UNPREPARED + re-preparation alike, whatever generator the connection has. (End-to-end: the
+`evict=` histories of `e2e timestamp` and `e2e tsconn`, harness/src/e2e/timestamp.rs, tsconn.rs.) -/
+theorem explicit_timestamp_on_every_frame (t : Int) (gen : Option (Unit → Int)) (unprepared : Bool) :
+    ∀ f ∈ executeFrames (some t) gen unprepared, f = some t := by
+  intro f hf
+  unfold executeFrames at hf
+  cases unprepared <;> simp [pickTimestamp] at hf <;> exact hf
+
+/-- The re-sent frame carries the timestamp of the refused one (no second pick). -/
+theorem resend_keeps_timestamp (s : Option Int) (gen : Option (Unit → Int)) :
+    executeFrames s gen true = [pickTimestamp s gen, pickTimestamp s gen] := rfl
+
+example : executeFrames (some (-5)) (some fun _ => 1700000000000000) true = [some (-5), some (-5)] := by decide
+
 /-- Sequential runs under any scripted clock (what the correspondence check observes on one thread):
 strictly increasing from the starting value. -/
 theorem seqRun_increasing (n : Nat) (last : Int) (script : List (Option Nat)) (le : Option Nat) :
